@@ -30,8 +30,8 @@ ASSUMPTIONS = [
     "the `nil;` statement compiles to Nil;Pop and nothing else in the generated programs does (marker detection)",
 ]
 
-KNOWN_BREAK = "break_dead_pops"
 KNOWN_SUB = "stopiter_subclass_adapters"
+PROFILE = ["release"]   # quick: release build; thorough: debug build (collects at every allocation)
 
 # ------------------------------------------------------------------------------------------
 # wire encoding (see IterLang.p_prog)
@@ -405,7 +405,7 @@ def g_program(rng):
         if env["wvars"] and rng.random() < 0.3:
             body.append(("collect", ("wvar", rng.choice(env["wvars"]))))
     fun = has(body, "return") or rng.random() < 0.5
-    return {"fun": fun, "loc": False, "body": body, "stream": "random"}
+    return {"fun": fun, "loc": rng.random() < 0.3, "body": body, "stream": "random"}
 
 
 def kinds_sizes(rng):
@@ -430,7 +430,7 @@ def directed(rng, quick):
             e = g_chain(rng, s, depth=depth)
             body = [("for", e, [("pvar", 0)]), ("collect", e),
                     ("reduce", rng.choice(["sum", "count"]), rng.choice([0, ""]), e)]
-            progs.append({"fun": rng.random() < 0.5, "loc": False, "body": body, "stream": "kinds"})
+            progs.append({"fun": rng.random() < 0.5, "loc": rng.random() < 0.3, "body": body, "stream": "kinds"})
     # (2) every placement of break / continue / return: kind x ctl x iteration x before/after x loop level
     many = [("vec", [1, 2, 3]), ("tup", ["a", "b", "c"]), ("range", 0, 3), ("range", 3, 0), ("str", "aé😀"),
             ("script", [5, 6, 7]), ("count", 1, 4), ("forever", 0)]
@@ -457,22 +457,22 @@ def directed(rng, quick):
                             inner = ("for", ("range", 0, 2), [("pvar", 1)])
                             b = [c, inner, ("pvar", 0)] if before else [inner, ("pvar", 0), c]
                             body = [("for", e, guard + b), ("plit", 100)]
-                        progs.append({"fun": ctl == "return" or rng.random() < 0.5, "loc": False, "body": body,
+                        progs.append({"fun": ctl == "return" or rng.random() < 0.5, "loc": rng.random() < 0.3, "body": body,
                                       "stream": "placement"})
     # (3) shared iterators: loop + manual next(), nested loops over ONE iterator, loop resumed after break
     for s in srcs if not quick else rng.sample(srcs, 10):
         e = g_chain(rng, s, depth=rng.choice([0, 1]))
-        progs.append({"fun": rng.random() < 0.5, "loc": False, "stream": "shared", "body": [
+        progs.append({"fun": rng.random() < 0.5, "loc": rng.random() < 0.3, "stream": "shared", "body": [
             ("let", 0, e), ("for", ("slot", 0), [("pvar", 0), ("if", 0, 1, [("next", 0)]), ("if", 0, 2, [("break",)])]),
             ("next", 0), ("for", ("slot", 0), [("pvar", 0)]), ("next", 0), ("next", 0)]})
-        progs.append({"fun": rng.random() < 0.5, "loc": False, "stream": "shared", "body": [
+        progs.append({"fun": rng.random() < 0.5, "loc": rng.random() < 0.3, "stream": "shared", "body": [
             ("let", 1, e), ("for", ("slot", 1), [("pvar", 0), ("for", ("slot", 1), [("pvar", 1), ("if", 1, 1, [("break",)])])]),
             ("collect", ("slot", 1))]})
-        progs.append({"fun": True, "loc": False, "stream": "shared", "body": [
+        progs.append({"fun": True, "loc": rng.random() < 0.3, "stream": "shared", "body": [
             ("let", 0, e), ("let", 2, g_chain(rng, ("slot", 0), depth=rng.choice([1, 2]))), ("next", 0),
             ("for", ("slot", 2), [("pvar", 0), ("if", 0, 2, [("next", 0)])]), ("next", 2), ("next", 0)]})
         # two independent loops over the same iterable
-        progs.append({"fun": rng.random() < 0.5, "loc": False, "stream": "independent", "body": [
+        progs.append({"fun": rng.random() < 0.5, "loc": rng.random() < 0.3, "stream": "independent", "body": [
             ("for", e, [("pvar", 0), ("for", e, [("pvar", 1), ("if", 1, 2, [("continue",)]), ("pvar", 0)])])]})
     # (4) vector mutation during iteration
     for _ in range(12 if quick else 120):
@@ -487,22 +487,16 @@ def directed(rng, quick):
         if rng.random() < 0.4:
             body.append(("for", ("wvar", 0), [("pvar", 1), ("if", 1, 2, [rng.choice([("pop", 0), ("break",), ("push", 0, 7)])])]))
         guard = [("if", 0, 8, [("break",)])]
-        progs.append({"fun": rng.random() < 0.5, "loc": False, "stream": "mutation", "body": [
+        progs.append({"fun": rng.random() < 0.5, "loc": rng.random() < 0.3, "stream": "mutation", "body": [
             ("setvec", 0, xs), ("for", it, guard + body), ("collect", ("wvar", 0))]})
     # (5) a user iterator handing out an instance of a SUBCLASS of StopIter
     for _ in range(6 if quick else 40):
         items = g_values(rng, rng.choice([2, 3, 4]), "num")
         items.insert(rng.randrange(len(items) + 1), ("sub",))
         e = g_chain(rng, ("script", items), depth=rng.choice([0, 1, 2]))
-        progs.append({"fun": rng.random() < 0.5, "loc": False, "stream": "subclass", "body": [
+        progs.append({"fun": rng.random() < 0.5, "loc": rng.random() < 0.3, "stream": "subclass", "body": [
             ("for", e, [("pvar", 0)]), ("collect", e), ("reduce", "count", 0, e)]})
-    # (6) loop bodies WITH locals (and locals declared after the loops): break inside them is the
-    #     known class break_dead_pops while the repair of /repo is pending
-    for _ in range(10 if quick else 80):
-        p = g_program(rng)
-        p["loc"] = True
-        p["stream"] = "locals"
-        progs.append(p)
+    # (6) loop bodies WITH locals (and locals declared after the loops), one loop each, every exit path
     for s in many[:7]:
         for ctl in ["break", "continue", "return"]:
             body = [("for", s, [("pvar", 0), ("if", 0, 2, [(ctl,)])]), ("plit", 100)]
@@ -547,6 +541,7 @@ def unlines(field):
 def evaluate(ctx, progs, tag):
     """model + spec + rendered text from Coq, then the implementation"""
     terms = ['run_case "%s"%%string' % w_prog(p["fun"], p["loc"], p["body"]) for p in progs]
+    pre = yvlib.coq_eval(["YV:IterLang"], ["prelude"], tag="C18pre", preamble="Open Scope string_scope.\n")[0]
     vals = yvlib.coq_eval(["YV:IterLang"], terms, shard_size=max(20, min(120, len(terms) // yvlib.NPROC + 1)), tag="C18" + tag, preamble="Open Scope string_scope.\n")
     for p, v in zip(progs, vals):
         if v is None:
@@ -554,14 +549,14 @@ def evaluate(ctx, progs, tag):
             ctx.corr_broken.append("model evaluation failed (coq_eval) for " + w_prog(p["fun"], p["loc"], p["body"])[:200])
             continue
         src, mech, spec, early = v.split("|")
-        p["src"] = yvlib.unhx(src).decode("utf-8")
+        p["src"] = pre + yvlib.unhx(src).decode("utf-8")
         ml = unlines(mech)
         p["mech"] = [l for l in ml if not l.startswith("#")]
         p["mech_h"] = [int(l[1:]) for l in ml if l.startswith("#")]
         p["spec"] = unlines(spec)
         p["early"] = int(early)
     ok = [p for p in progs if not p.get("bad")]
-    binary = ctx.harness("debug")
+    binary = ctx.harness(PROFILE[0])
     recs = yvlib.run_harness(binary, ["trace - 400000 " + hx(p["src"]) for p in ok], case_timeout_ms=20000)
     nil, pop = opcode_numbers()
     for p, r in zip(ok, recs):
@@ -577,8 +572,6 @@ def rel(hs):
 
 def known_class_of(p):
     f = p["facts"]
-    if p["loc"] and f["break"]:
-        return KNOWN_BREAK
     if f["sub"]:
         return KNOWN_SUB
     return None
@@ -609,7 +602,7 @@ def judge(ctx, p, stats):
         ctx.violation("iteration state left on the VM stack: height at the markers around the loops differs from the "
                       "model's hidden locals", input=p["src"], expected=rel(p["mech_h"]), actual=rel(p["impl_h"]),
                       known_class=kc, wire=wire, stream=p["stream"])
-    if not m_ok and s_ok and not (kc == KNOWN_BREAK):
+    if not m_ok and s_ok:
         ctx.corr_broken.append("impl != M (IterLang.eval_mech) on %s | impl %s %s | model %s" % (
             wire[:300], p["impl"][:40], p["impl_res"], p["mech"][:40]))
     if p["mech"] != p["spec"] and p["spec"] != ["SKIP"] and kc != KNOWN_SUB:
@@ -678,13 +671,15 @@ def shrink(ctx, p):
 def run(ctx):
     quick = ctx.quick()
     rng = ctx.rng
+    PROFILE[0] = "release" if quick else "debug"
     stats = {"checked": 0, "spec_checked": 0, "spec_skip": 0, "model_fuel": 0}
     if ctx.replay_only:
         w = ctx.replay_only.get("wire")
         progs = [{"fun": w.split()[0] != "0", "loc": w.split()[1] != "0", "body": None, "stream": "replay", "wire": w}]
         vals = yvlib.coq_eval(["YV:IterLang"], ['run_case "%s"%%string' % w], tag="C18replay", preamble="Open Scope string_scope.\n")
         src, mech, spec, _ = vals[0].split("|")
-        text = yvlib.unhx(src).decode("utf-8")
+        pre = yvlib.coq_eval(["YV:IterLang"], ["prelude"], tag="C18pre", preamble="Open Scope string_scope.\n")[0]
+        text = pre + yvlib.unhx(src).decode("utf-8")
         rec = yvlib.run_harness(ctx.harness("debug"), ["trace - 400000 " + hx(text)])[0]
         nil, pop = opcode_numbers()
         ml = unlines(mech)
